@@ -13,14 +13,24 @@ const VerifDir = "/verif"
 
 func Main(args []string) int {
 	if len(args) == 0 {
-		fmt.Fprintln(os.Stderr, "usage: cverif func|check|replay ...")
+		fmt.Fprintln(os.Stderr, "usage: cverif func|check|replay|selftest ...")
 		return 2
 	}
+	if args[0] == "spawnd" {
+		return SpawnServer()
+	}
+	StartSpawner()
+	StartPool(16)
+	defer StopPool()
 	switch args[0] {
 	case "func":
 		return cmdFunc(args[1:])
 	case "check":
 		return cmdCheck(args[1:])
+	case "replay":
+		return cmdReplay(args[1:])
+	case "warmup":
+		return cmdWarmup(args[1:])
 	}
 	fmt.Fprintln(os.Stderr, "unknown command", args[0])
 	return 2
@@ -83,7 +93,9 @@ func cmdFunc(args []string) int {
 		for _, o := range res.Obligations {
 			ans := Solve(o.Query, o.Name, SolverCfg{Timeout: time.Duration(*timeout) * time.Second, WorkDir: work})
 			status := "ok"
-			if ans.Result != o.Expect {
+			if ans.Result == o.Expect {
+				os.Remove(ans.File)
+			} else {
 				status = "FAIL"
 				rc = 1
 			}
@@ -102,9 +114,4 @@ func cmdFunc(args []string) int {
 		}
 	}
 	return rc
-}
-
-func cmdCheck(args []string) int {
-	fmt.Fprintln(os.Stderr, "check: not implemented yet")
-	return 2
 }
